@@ -2569,8 +2569,13 @@ class Convex:
             raise ValueError('Convex functions do not support the sum() method.')
 
         affine_in = self.affine_in
-        if affine_in.shape != self.affine_out.shape:
-            affine_in = affine_in + np.zeros(self.affine_out.shape)
+        if self.sum_axis is False:
+            if affine_in.shape != self.affine_out.shape:
+                affine_in = affine_in + np.zeros(self.affine_out.shape)
+        else:
+            reduced = np.zeros(affine_in.shape).sum(axis=self.sum_axis).shape
+            if axis is not None or self.affine_out.shape != reduced:
+                raise ValueError('Unsupported sum of a summed expression.')
 
         return Convex(affine_in, self.affine_out.sum(axis=axis),
                       self.xtype, self.sign, self.multiplier, axis, params=self.params)
